@@ -4,7 +4,7 @@ package c11
 
 import "pgregory.net/rapid"
 
-var configs = []string{"mem-stream", "mem-paged", "mem-paged", "sqlite", "sqlite-batched", "sqlite-batched", "durable", "durable"}
+var configs = []string{"mem-stream", "mem-paged", "mem-paged", "sqlite", "sqlite-batched", "sqlite-batched", "sqlitemem", "sqlitemem-batched", "durable", "durable"}
 
 func faultsFor(config string) []string {
 	common := []string{"none", "cberr", "cberr", "cancel-before", "cancel-at", "cancel-at"}
@@ -31,7 +31,7 @@ func Gen(cfgs []string) func(t *rapid.T) *Case {
 		switch c.Config {
 		case "mem-paged":
 			c.Batch = rapid.SampledFrom([]int{0, 1, 2, 3, 4, 5, 6, 7}).Draw(t, "batch")
-		case "sqlite-batched":
+		case "sqlite-batched", "sqlitemem-batched":
 			c.Batch = rapid.IntRange(1, 7).Draw(t, "batch")
 		case "durable":
 			c.Chunk = rapid.SampledFrom([]int{1, 60, 130, 300, 0}).Draw(t, "chunk")
